@@ -122,6 +122,12 @@ type serverConn struct {
 
 	closer chan struct{}
 
+	// queueLck is held while frames are put on the queue, so that the frames
+	// of one header block get there back to back: several goroutines queue
+	// frames, and nothing may come between a HEADERS frame and its
+	// CONTINUATIONs (RFC 7540 6.10).
+	queueLck sync.Mutex
+
 	// writeGone is closed when the write loop has returned. Nothing takes
 	// frames off the queue after that, so nothing may wait to put one on.
 	writeGone chan struct{}
@@ -1663,14 +1669,13 @@ func (sc *serverConn) finishRequest(strm *Stream) bool {
 	fr.SetStream(strm.ID())
 
 	h := AcquireFrame(FrameHeaders).(*Headers)
-	h.SetEndHeaders(true)
 	h.SetEndStream(!hasBody)
 
 	fr.SetBody(h)
 
 	fasthttpResponseHeaders(h, &sc.enc, &ctx.Response)
 
-	sc.write(fr)
+	sc.writeHeaderBlock(fr, h)
 
 	if !hasBody {
 		return true
@@ -1868,12 +1873,68 @@ func (sc *serverConn) sendPingAndSchedule() {
 // once the connection is on its way out: the ping and idle timers queue frames
 // from their own goroutines and cannot know the write loop has gone.
 func (sc *serverConn) write(fr *FrameHeader) {
+	sc.queueLck.Lock()
+	sc.enqueue(fr)
+	sc.queueLck.Unlock()
+}
+
+// enqueue hands a frame to the write loop. The caller holds queueLck.
+func (sc *serverConn) enqueue(fr *FrameHeader) {
 	select {
 	case sc.writer <- fr:
 	case <-sc.writeStop:
 		ReleaseFrameHeader(fr)
 	case <-sc.writeGone:
 		ReleaseFrameHeader(fr)
+	}
+}
+
+// writeHeaderBlock queues the header block in h, which is the body of fr. A
+// block that does not fit a frame of the size every peer has to accept goes
+// out as a HEADERS frame followed by CONTINUATION frames, the last of which
+// carries END_HEADERS, with nothing in between.
+func (sc *serverConn) writeHeaderBlock(fr *FrameHeader, h *Headers) {
+	block := h.Headers()
+	if len(block) <= maxDataFrameSize {
+		h.SetEndHeaders(true)
+
+		sc.write(fr)
+
+		return
+	}
+
+	// The frames belong to the write loop once they are queued, so everything
+	// is read off them before that.
+	id := fr.Stream()
+	rest := append([]byte(nil), block[maxDataFrameSize:]...)
+
+	h.SetHeaders(block[:maxDataFrameSize])
+	h.SetEndHeaders(false)
+
+	sc.queueLck.Lock()
+	defer sc.queueLck.Unlock()
+
+	sc.enqueue(fr)
+
+	for len(rest) > 0 {
+		n := len(rest)
+		if n > maxDataFrameSize {
+			n = maxDataFrameSize
+		}
+
+		cfr := AcquireFrameHeader()
+		cfr.SetStream(id)
+
+		c := AcquireFrame(FrameContinuation).(*Continuation)
+		c.SetHeader(rest[:n])
+
+		rest = rest[n:]
+
+		c.SetEndHeaders(len(rest) == 0)
+
+		cfr.SetBody(c)
+
+		sc.enqueue(cfr)
 	}
 }
 
